@@ -2,7 +2,7 @@
 import ast
 
 from ..astutil import dotted, calls, walk_local, body_walk, call_name
-from ..fdeval import FD, Obj, truth, Inconclusive, UNKNOWN
+from ..fdeval import FD, Obj, truth, Inconclusive, UNKNOWN, Raised
 from ..loader import AnalysisError, norm
 from ..symbols import Symbols
 
@@ -926,6 +926,42 @@ def r8_program_identity(ctx, sym, rule='R8', entry='parse_program'):
               "static checks see a stale tree")
 
 
+def r9_reported_position(ctx, sym):
+    ctx.rule('R9', "Location.from_ast executed abstractly on model nodes (a plain statement, a decorated function and "
+                   "class, a CaitNode-like wrapper): the position reported for an occurrence is the node's own lineno / "
+                   "col_offset - the line on which a node of that kind starts")
+    from .. import symexec
+    lmod = ctx.repo.module('pedal.core.location')
+    fn = lmod.func('Location.from_ast')
+    ctx.analysed_function(lmod, fn)
+    deco = Obj('ast.Name', lineno=5, col_offset=1, __open__=True)
+    nodes = {'plain statement': Obj('ast.Assign', lineno=5, col_offset=0, __closed__=True),
+             'decorated function': Obj('ast.FunctionDef', lineno=7, col_offset=0, decorator_list=[deco], __closed__=True),
+             'decorated class': Obj('ast.ClassDef', lineno=9, col_offset=4, decorator_list=[deco, deco], __closed__=True),
+             'undecorated function': Obj('ast.FunctionDef', lineno=3, col_offset=0, decorator_list=[], __closed__=True)}
+    for what, node in nodes.items():
+        made = []
+
+        def location(line=None, col=None, *a, **k):
+            made.append((line, col))
+            return Obj('Location', line=line, col=col)
+        cls_stub = Obj('Location-class')
+        fd = symexec.new_fd(sym, lmod, calls={
+            'Location': location, 'min': min, 'max': max,
+            'getattr': lambda o, n, *d: o.attrs[n] if isinstance(o, Obj) and n in o.attrs else (
+                d[0] if d else (_ for _ in ()).throw(Raised('AttributeError', n))),
+            'hasattr': lambda o, n: isinstance(o, Obj) and n in o.attrs})
+        got, raised = symexec.run(fd, fn, [node], bound_self=cls_stub, what='Location.from_ast')
+        want = (node.attrs['lineno'], node.attrs['col_offset'])
+        ok = raised is None and isinstance(got, Obj) and (got.attrs.get('line'), got.attrs.get('col')) == want
+        ctx.check(ok, 'R9', 'Location.from_ast[%s]' % what, lmod, fn,
+                  "a %s starting on line %d is reported at %r%s" % (
+                      what, want[0], (got.attrs.get('line'), got.attrs.get('col')) if isinstance(got, Obj) else got,
+                      '' if raised is None else ' (raises %s)' % raised.kind),
+                  "prevent_ast('FunctionDef') on a decorated function reports the decorator's line, where no "
+                  "FunctionDef starts")
+
+
 def run(ctx):
     sym = Symbols(ctx.repo)
     r8_program_identity(ctx, sym)
@@ -936,5 +972,6 @@ def run(ctx):
     r5_siblings(ctx, sym)
     r6_constant_split(ctx, sym)
     r7_literal_identity(ctx, sym)
+    r9_reported_position(ctx, sym)
     ctx.assume("the parsed program handed to find_all/find_matches is CPython's ast of the submission "
                "(C12.R4); counts for individual programs are not enumerated")
